@@ -66,6 +66,7 @@ type transFunc struct {
 	types   map[string]string      // Go type text → static type (named types of zap and the std lib)
 	consts  map[string]string      // named constants: Go text → integer literal (decimal) or "bool:true"
 	inout   []string               // pointer parameters the function mutates: their final values are returned after the declared results
+	recvNil string                 // pointer receiver that may be nil: GoMini (bool) field holding `recv == nil`
 	recvAs  *fieldSpec             // the receiver VALUE itself (a slice type such as multiWriteSyncer) as a field
 	structs map[string][]fieldSpec // struct types passed by value: static type "struct:<name>" is a list of these fields
 	calls   map[string]shim        // "<static type or package>.<Name>" → meaning
@@ -102,19 +103,20 @@ type tvar struct {
 }
 
 type xl struct {
-	fn      *transFunc
-	fd      *ast.FuncDecl
-	recvVar string
-	scopes  []map[string]tvar
-	consts  map[string]constant.Value // local const declarations
-	nloc    int
-	named   []tvar   // named results (in order)
-	results []string // result types
-	legend  []string
-	loops   []string
-	inouts  []tvar               // in-out parameters, in the order of fn.inout
-	subst   map[*ast.CallExpr]tx // calls hoisted out of an if-condition
-	stmts_  int
+	fn          *transFunc
+	fd          *ast.FuncDecl
+	recvVar     string
+	scopes      []map[string]tvar
+	consts      map[string]constant.Value // local const declarations
+	nloc        int
+	named       []tvar   // named results (in order)
+	results     []string // result types
+	legend      []string
+	loops       []string
+	inouts      []tvar               // in-out parameters, in the order of fn.inout
+	subst       map[*ast.CallExpr]tx // calls hoisted out of an expression
+	hoistLeaves int                  // operands seen so far while walking an expression in evaluation order
+	stmts_      int
 }
 
 type xerr struct{ msg string }
@@ -153,6 +155,9 @@ func (x *xl) declare(n ast.Node, name, typ string) tvar {
 // goType maps a Go type expression to a static type.
 // transTypeText renders a type expression as the key the whitelist entries use (function types included).
 func transTypeText(e ast.Expr) string {
+	if el, ok := e.(*ast.Ellipsis); ok { // variadic parameter ...T: a []T inside the function
+		return "[]" + transTypeText(el.Elt)
+	}
 	ft, ok := e.(*ast.FuncType)
 	if !ok {
 		return exprString(e)
@@ -192,6 +197,13 @@ func (x *xl) goType(e ast.Expr) string {
 	if t, ok := goBasic[txt]; ok {
 		return t
 	}
+	if el, ok := e.(*ast.Ellipsis); ok {
+		elt := x.goType(el.Elt)
+		if elt == "u8" {
+			return "bytes"
+		}
+		return "[]" + elt
+	}
 	if a, ok := e.(*ast.ArrayType); ok && a.Len == nil {
 		el := x.goType(a.Elt)
 		if el == "u8" {
@@ -211,10 +223,16 @@ func zeroOf(t string) (string, bool) {
 		return ".bool false", true
 	case t == "string" || t == "bytes":
 		return ".bytes []", true
-	case t == "error" || strings.HasPrefix(t, "[]"):
+	case t == "error" || strings.HasPrefix(t, "[]") || isNilable(t):
 		return ".list []", true
 	}
 	return "", false
+}
+
+// isNilable: interface / pointer values that may be nil.  "opt:T" is nil = [] or [v]; "ptr:struct:T" is nil = [] or
+// the list of the declared fields of T (at least one field is declared, so the two cannot be confused).
+func isNilable(t string) bool {
+	return strings.HasPrefix(t, "opt:") || strings.HasPrefix(t, "ptr:struct:")
 }
 
 // ---------------------------------------------------------------- expressions
@@ -374,8 +392,8 @@ func (x *xl) expr(e ast.Expr) tx {
 			return c
 		}
 		if id, ok := t.X.(*ast.Ident); ok {
-			if v, ok := x.lookup(id.Name); ok && strings.HasPrefix(v.typ, "struct:") {
-				for i, f := range x.fn.structs[v.typ[7:]] {
+			if v, ok := x.lookup(id.Name); ok && (strings.HasPrefix(v.typ, "struct:") || strings.HasPrefix(v.typ, "ptr:struct:")) {
+				for i, f := range x.fn.structs[v.typ[strings.Index(v.typ, "struct:")+7:]] {
 					if f.lean == t.Sel.Name {
 						return tx{lean: fmt.Sprintf("(.index (.loc %s) (.lit (.int %d)))", leanStr(v.lean), i), typ: f.typ}
 					}
@@ -484,14 +502,33 @@ func (x *xl) binary(t *ast.BinaryExpr) tx {
 		}
 		return tx{lean: "(" + op + " " + a.lean + " " + b.lean + ")", typ: "bool"}
 	}
+	// `recv == nil` for a pointer receiver: its nil-ness is a boolean pseudo-field the whitelist entry names
+	if x.fn.recvNil != "" && (t.Op == token.EQL || t.Op == token.NEQ) {
+		isRecv := func(e ast.Expr) bool {
+			id, ok := e.(*ast.Ident)
+			if !ok || id.Name != x.recvVar || x.recvVar == "" {
+				return false
+			}
+			_, shadow := x.lookup(id.Name)
+			return !shadow
+		}
+		isNil := func(e ast.Expr) bool { id, ok := e.(*ast.Ident); return ok && id.Name == "nil" }
+		if (isRecv(t.X) && isNil(t.Y)) || (isNil(t.X) && isRecv(t.Y)) {
+			f := "(.fld " + leanStr(x.fn.recvNil) + ")"
+			if t.Op == token.NEQ {
+				f = "(.un .not " + f + ")"
+			}
+			return tx{lean: f, typ: "bool"}
+		}
+	}
 	a, b := x.expr(t.X), x.expr(t.Y)
-	// nil comparisons: only for error / non-byte slices, where nil is the empty list
+	// nil comparisons: only for error / non-byte slices / nilable named values, where nil is the empty list
 	if a.typ == "nil" || b.typ == "nil" {
 		o := a
 		if a.typ == "nil" {
 			o = b
 		}
-		if (t.Op == token.EQL || t.Op == token.NEQ) && (o.typ == "error" || (strings.HasPrefix(o.typ, "[]"))) {
+		if (t.Op == token.EQL || t.Op == token.NEQ) && (o.typ == "error" || strings.HasPrefix(o.typ, "[]") || isNilable(o.typ)) {
 			return tx{lean: "(.bin ." + cmpOps[t.Op] + " (.len " + o.lean + ") (.lit (.int 0)))", typ: "bool"}
 		}
 		x.fail(t, "comparison of %s with nil is outside the subset", o.typ)
@@ -584,6 +621,7 @@ type tcall struct {
 	value     string
 	pre       []string // extfld: places assigned before the declared results
 	traceStmt string   // extstmt with a trace: executed before the call
+	pureTrace bool     // the call touches nothing Go code can read (only the trace and its own results)
 	recvRd    string   // addret / cas: the receiver as an expression
 	old, new  string   // cas
 }
@@ -684,16 +722,49 @@ func (x *xl) callExpr(c *ast.CallExpr) (tx, bool) {
 			x.fail(c, "shim kind %q is not applicable to a function value", sh.kind)
 		}
 	}
-	// method or package call
-	sel, ok := c.Fun.(*ast.SelectorExpr)
-	if !ok {
-		x.fail(c, "call of %s is outside the subset", exprString(c.Fun))
+	// a computed function value, e.g. h.funcs[i](ent): the static type of the callee names the shim; the function
+	// VALUE is passed first (it scripts its own outcome)
+	if _, isId := c.Fun.(*ast.Ident); !isId {
+		if _, isSel := c.Fun.(*ast.SelectorExpr); !isSel {
+			fv, ok := x.tryExpr(c.Fun)
+			if !ok {
+				x.fail(c, "call of %s is outside the subset", exprString(c.Fun))
+			}
+			sh, ok := x.fn.calls[fv.typ+"()"]
+			if !ok {
+				x.fail(c, "call of a function value of type %s (key %q) is not in the whitelist entry of %s", fv.typ, fv.typ+"()", x.fn.name)
+			}
+			args := []string{fv.lean}
+			for _, a := range c.Args {
+				args = append(args, x.defaulted(a, x.expr(a)).lean)
+			}
+			switch sh.kind {
+			case "extstmt":
+				pendingCall = &tcall{ctor: "callX", f: sh.f, args: args, res: sh.res}
+				x.addTrace(c, sh, fv.typ+"()", args)
+				return tx{}, true
+			case "ext":
+				if len(sh.res) != 1 {
+					x.fail(c, "shim %s needs one result type", fv.typ+"()")
+				}
+				return tx{lean: "(.call " + leanStr(sh.f) + " [" + strings.Join(args, ", ") + "])", typ: sh.res[0]}, false
+			}
+			x.fail(c, "shim kind %q is not applicable to a function value", sh.kind)
+		}
 	}
+	// method or package call
 	var key string
 	var recvLean, recvLV string
 	hasRecv := false
 	isSelf := false
-	if id, ok := sel.X.(*ast.Ident); ok && id.Name == x.recvVar && x.recvVar != "" {
+	var sel *ast.SelectorExpr
+	if id, ok := c.Fun.(*ast.Ident); ok {
+		key = id.Name // a package-level function of the same package, called by name
+		sel = &ast.SelectorExpr{X: id, Sel: id}
+	} else {
+		sel = c.Fun.(*ast.SelectorExpr)
+	}
+	if id, ok := sel.X.(*ast.Ident); key == "" && ok && id.Name == x.recvVar && x.recvVar != "" {
 		if _, shadow := x.lookup(id.Name); !shadow {
 			key, isSelf = "recv."+sel.Sel.Name, true
 		}
@@ -703,8 +774,12 @@ func (x *xl) callExpr(c *ast.CallExpr) (tx, bool) {
 			key, recvLean, recvLV, hasRecv = typ+"."+sel.Sel.Name, rd, lv, true
 		} else if id, ok := sel.X.(*ast.Ident); ok {
 			key = id.Name + "." + sel.Sel.Name // package function
+		} else if rv, ok := x.tryExpr(sel.X); ok && rv.typ != "untyped" && rv.typ != "nil" {
+			// method on a computed value that is itself inside the subset, e.g. ce.cores[i].Write(…): its static type
+			// names the shim; the value is the (non-assignable) receiver
+			key, recvLean, hasRecv = rv.typ+"."+sel.Sel.Name, rv.lean, true
 		} else {
-			// method on a computed value, e.g. w.Log.Core().Enabled(…): key on the source text of the receiver
+			// method on any other computed value, e.g. w.Log.Core().Enabled(…): key on the source text of the receiver
 			key = exprString(sel.X) + "." + sel.Sel.Name
 			if id0 := rootIdent(sel.X); id0 == x.recvVar && x.recvVar != "" {
 				key = "recv" + strings.TrimPrefix(key, x.recvVar)
@@ -753,7 +828,7 @@ func (x *xl) callExpr(c *ast.CallExpr) (tx, bool) {
 		addArgs()
 		return tx{lean: "(.call " + leanStr(sh.f) + " [" + strings.Join(args, ", ") + "])", typ: sh.res[0]}, false
 	case "mut":
-		if !hasRecv {
+		if !hasRecv || recvLV == "" {
 			x.fail(c, "shim mut on %s needs an assignable receiver", key)
 		}
 		args = append(args, recvLean)
@@ -761,7 +836,7 @@ func (x *xl) callExpr(c *ast.CallExpr) (tx, bool) {
 		pendingCall = &tcall{ctor: "mut", targetLV: recvLV, value: "(.call " + leanStr(sh.f) + " [" + strings.Join(args, ", ") + "])"}
 		return tx{}, true
 	case "set":
-		if !hasRecv {
+		if !hasRecv || recvLV == "" {
 			x.fail(c, "shim set on %s needs an assignable receiver", key)
 		}
 		var v string
@@ -776,7 +851,7 @@ func (x *xl) callExpr(c *ast.CallExpr) (tx, bool) {
 		pendingCall = &tcall{ctor: "mut", targetLV: recvLV, value: v}
 		return tx{}, true
 	case "addret":
-		if !hasRecv || len(c.Args) != 1 || !isInt(sh.f) {
+		if !hasRecv || recvLV == "" || len(c.Args) != 1 || !isInt(sh.f) {
 			x.fail(c, "shim addret on %s", key)
 		}
 		d := x.constTo(c.Args[0], x.expr(c.Args[0]), sh.f)
@@ -787,7 +862,7 @@ func (x *xl) callExpr(c *ast.CallExpr) (tx, bool) {
 			value: "(.bin (.add " + intTypes[sh.f] + ") " + recvLean + " " + d.lean + ")"}
 		return tx{}, true
 	case "cas":
-		if !hasRecv || len(c.Args) != 2 || !isInt(sh.f) {
+		if !hasRecv || recvLV == "" || len(c.Args) != 2 || !isInt(sh.f) {
 			x.fail(c, "shim cas on %s", key)
 		}
 		o := x.constTo(c.Args[0], x.expr(c.Args[0]), sh.f)
@@ -803,14 +878,7 @@ func (x *xl) callExpr(c *ast.CallExpr) (tx, bool) {
 		}
 		addArgs()
 		pendingCall = &tcall{ctor: "callX", f: sh.f, args: args, res: sh.res}
-		if sh.trace != "" {
-			fs, ok := x.fn.fields[sh.trace]
-			if !ok {
-				x.fail(c, "shim %s names the unmapped trace field %s", key, sh.trace)
-			}
-			pendingCall.traceStmt = "(.assign [(.fld " + leanStr(fs.lean) + ")] [(.call \"append\" [(.fld " + leanStr(fs.lean) +
-				"), (.call \"tuple\" [" + strings.Join(args, ", ") + "])])])"
-		}
+		x.addTrace(c, sh, key, args)
 		return tx{}, true
 	case "extfld":
 		// statement  flds…, lhs… = f(flds…, args…): an untranslated method of the receiver that reads and writes the listed fields
@@ -830,7 +898,7 @@ func (x *xl) callExpr(c *ast.CallExpr) (tx, bool) {
 		pendingCall = &tcall{ctor: "callX", f: sh.f, args: args, res: sh.res, pre: lvs}
 		return tx{}, true
 	case "mutext":
-		if !hasRecv {
+		if !hasRecv || recvLV == "" {
 			x.fail(c, "shim mutext on %s needs an assignable receiver", key)
 		}
 		args = append(args, recvLean)
@@ -854,6 +922,35 @@ func (x *xl) callExpr(c *ast.CallExpr) (tx, bool) {
 	}
 	x.fail(c, "unknown shim kind %q for %s", sh.kind, key)
 	return tx{}, false
+}
+
+// addTrace: a traced intrinsic records (name, arguments…) in the trace pseudo-field before it is called
+func (x *xl) addTrace(c *ast.CallExpr, sh shim, key string, args []string) {
+	if sh.trace == "" {
+		return
+	}
+	fs, ok := x.fn.fields[sh.trace]
+	if !ok {
+		x.fail(c, "shim %s names the unmapped trace field %s", key, sh.trace)
+	}
+	rec := append([]string{"(.lit (.bytes " + leanBytes([]byte(sh.f)) + "))"}, args...)
+	pendingCall.traceStmt = "(.assign [(.fld " + leanStr(fs.lean) + ")] [(.call \"append\" [(.fld " + leanStr(fs.lean) +
+		"), (.call \"tuple\" [" + strings.Join(rec, ", ") + "])])])"
+	pendingCall.pureTrace = true
+}
+
+// tryExpr translates an expression, reporting failure instead of aborting the table
+func (x *xl) tryExpr(e ast.Expr) (t tx, ok bool) {
+	defer func() {
+		if r := recover(); r != nil {
+			if _, is := r.(xerr); is {
+				t, ok = tx{}, false
+				return
+			}
+			panic(r)
+		}
+	}()
+	return x.expr(e), true
 }
 
 func rootIdent(e ast.Expr) string {
@@ -950,51 +1047,134 @@ func (x *xl) appendCall(c *ast.CallExpr) tx {
 	return tx{lean: "(.call \"append\" [" + s.lean + ", " + v.lean + "])", typ: s.typ}
 }
 
-// hoist: a call with a statement-level meaning (mutation, several results, translated function) may appear inside the
-// condition of an `if` when it is the FIRST thing the condition evaluates and is evaluated unconditionally — i.e. it
-// is reached from the root through parentheses, unary operators and LEFT operands only.  It is then executed before
-// the `if` into a fresh local, which replaces it in the condition.  Any other placement is outside the subset.
-func (x *xl) hoist(e ast.Expr) []string {
-	cur := e
-	for {
-		switch t := cur.(type) {
-		case *ast.ParenExpr:
-			cur = t.X
-			continue
-		case *ast.UnaryExpr:
-			cur = t.X
-			continue
-		case *ast.BinaryExpr:
-			cur = t.X
-			continue
-		case *ast.CallExpr:
-			if _, done := x.subst[t]; done {
-				return nil
+// Hoisting.  A call with a statement-level meaning (several results, a translated function, a traced intrinsic) may
+// stand INSIDE an expression of an `if` condition, an assignment, a `return` or a call statement.  It is executed
+// before the statement into a fresh local, which replaces it in the expression, when that preserves Go's meaning:
+//
+//   - an external intrinsic (`extstmt`) reads and writes nothing the Go code can see (its trace pseudo-field apart), so
+//     it may move in front of every PURE evaluation that precedes it; it is hoisted from any position that is
+//     evaluated unconditionally, i.e. not from the right operand of && / || (several such calls keep their order);
+//   - any other statement-level call (mutation, compare-and-swap, translated function) is hoisted only when it is the
+//     FIRST thing the expression evaluates.
+//
+// Loop conditions are never hoisted from (they are re-evaluated).  Anything else is outside the subset.
+func (x *xl) hoistWalk(e ast.Expr, conditional bool, out *[]string) {
+	switch t := e.(type) {
+	case *ast.ParenExpr:
+		x.hoistWalk(t.X, conditional, out)
+	case *ast.UnaryExpr:
+		x.hoistWalk(t.X, conditional, out)
+	case *ast.BinaryExpr:
+		x.hoistWalk(t.X, conditional, out)
+		x.hoistWalk(t.Y, conditional || t.Op == token.LAND || t.Op == token.LOR, out)
+	case *ast.IndexExpr:
+		x.hoistWalk(t.X, conditional, out)
+		x.hoistWalk(t.Index, conditional, out)
+	case *ast.SliceExpr:
+		x.hoistWalk(t.X, conditional, out)
+		for _, b := range []ast.Expr{t.Low, t.High} {
+			if b != nil {
+				x.hoistWalk(b, conditional, out)
 			}
-			if _, isStmt := x.tryCall(t); !isStmt {
-				return nil
-			}
-			pc := pendingCall
-			pendingCall = nil
-			if pc.ctor == "mut" || len(pc.res) != 1 {
-				x.fail(t, "call %s has no single value here", exprString(t.Fun))
-			}
-			tmp := tvar{fmt.Sprintf("l%d", x.nloc), pc.res[0]}
-			x.nloc++
-			x.legend = append(x.legend, tmp.lean+" = (value of "+exprString(t.Fun)+"(…) in the condition) "+tmp.typ)
-			if x.subst == nil {
-				x.subst = map[*ast.CallExpr]tx{}
-			}
-			x.subst[t] = tx{lean: "(.loc " + leanStr(tmp.lean) + ")", typ: tmp.typ}
-			return []string{x.emitCall(t, pc, []string{"(.loc " + leanStr(tmp.lean) + ")"}, []string{tmp.typ})}
 		}
-		return nil
+	case *ast.SelectorExpr:
+		x.hoistWalk(t.X, conditional, out)
+		x.hoistLeaves++
+	case *ast.Ident, *ast.BasicLit:
+		x.hoistLeaves++
+	case *ast.CallExpr:
+		before := x.hoistLeaves
+		x.hoistArgs(t, conditional, out)
+		x.hoistCall(t, conditional, before == 0, out)
+		x.hoistLeaves++
 	}
 }
 
-// tryCall is callExpr that reports "not a statement call" instead of failing on a call that is an ordinary expression.
-func (x *xl) tryCall(c *ast.CallExpr) (tx, bool) {
-	return x.callExpr(c)
+func (x *xl) hoistArgs(c *ast.CallExpr, conditional bool, out *[]string) {
+	if sel, ok := c.Fun.(*ast.SelectorExpr); ok {
+		x.hoistWalk(sel.X, conditional, out)
+	} else if _, ok := c.Fun.(*ast.Ident); !ok {
+		x.hoistWalk(c.Fun, conditional, out)
+	}
+	for _, a := range c.Args {
+		x.hoistWalk(a, conditional, out)
+	}
+}
+
+func (x *xl) hoistCall(t *ast.CallExpr, conditional, first bool, out *[]string) {
+	if _, done := x.subst[t]; done {
+		return
+	}
+	// a call that cannot be translated on its own (e.g. the receiver part of a text-keyed shim such as
+	// w.Log.Core().Enabled) is left to the statement translator, which accepts or rejects the whole expression
+	isStmt, ok := func() (st bool, ok bool) {
+		defer func() {
+			if r := recover(); r != nil {
+				if _, is := r.(xerr); is {
+					st, ok = false, false
+					return
+				}
+				panic(r)
+			}
+		}()
+		_, st = x.callExpr(t)
+		return st, true
+	}()
+	if !ok || !isStmt {
+		pendingCall = nil
+		return
+	}
+	pc := pendingCall
+	pendingCall = nil
+	if pc.ctor == "mut" || pc.ctor == "nop" || len(pc.res) != 1 {
+		x.fail(t, "call %s has no single value here", exprString(t.Fun))
+	}
+	if conditional {
+		x.fail(t, "call %s is evaluated conditionally (right operand of && or ||): it cannot be executed before the statement", exprString(t.Fun))
+	}
+	pure := pc.ctor == "callX" && len(pc.pre) == 0
+	if !pure && !first {
+		x.fail(t, "call %s changes state and is not the first thing its expression evaluates", exprString(t.Fun))
+	}
+	tmp := tvar{fmt.Sprintf("l%d", x.nloc), pc.res[0]}
+	x.nloc++
+	x.legend = append(x.legend, tmp.lean+" = (value of "+exprString(t.Fun)+"(…) inside an expression) "+tmp.typ)
+	if x.subst == nil {
+		x.subst = map[*ast.CallExpr]tx{}
+	}
+	x.subst[t] = tx{lean: "(.loc " + leanStr(tmp.lean) + ")", typ: tmp.typ}
+	*out = append(*out, x.emitCall(t, pc, []string{"(.loc " + leanStr(tmp.lean) + ")"}, []string{tmp.typ}))
+}
+
+// hoist prepares expression e; when root is true and e is itself a call, only its arguments are prepared (the
+// statement translator deals with the call itself).
+func (x *xl) hoist(e ast.Expr, root bool) []string {
+	var out []string
+	x.hoistLeaves = 0
+	if c, ok := e.(*ast.CallExpr); ok && root {
+		x.hoistArgs(c, false, &out)
+		return out
+	}
+	x.hoistWalk(e, false, &out)
+	return out
+}
+
+// hoistStmt prepares the expressions a simple statement evaluates.
+func (x *xl) hoistStmt(s ast.Stmt) []string {
+	var out []string
+	switch t := s.(type) {
+	case *ast.ExprStmt:
+		out = append(out, x.hoist(t.X, true)...)
+	case *ast.AssignStmt:
+		for _, r := range t.Rhs {
+			out = append(out, x.hoist(r, len(t.Rhs) == 1)...)
+		}
+	case *ast.ReturnStmt:
+		for _, r := range t.Results {
+			out = append(out, x.hoist(r, len(t.Results) == 1)...)
+		}
+	}
+	return out
 }
 
 // ---------------------------------------------------------------- statements
@@ -1059,6 +1239,11 @@ func (x *xl) coerce(n ast.Node, v tx, typ string) tx {
 }
 
 func (x *xl) stmt(s ast.Stmt) string {
+	pre := x.hoistStmt(s)
+	return block(append(pre, x.stmt1(s)))
+}
+
+func (x *xl) stmt1(s ast.Stmt) string {
 	x.stmts_++
 	switch t := s.(type) {
 	case *ast.EmptyStmt:
@@ -1113,7 +1298,7 @@ func (x *xl) stmt(s ast.Stmt) string {
 		if t.Init != nil {
 			pre = append(pre, x.stmt(t.Init))
 		}
-		pre = append(pre, x.hoist(t.Cond)...)
+		pre = append(pre, x.hoist(t.Cond, false)...)
 		c := x.defaulted(t.Cond, x.expr(t.Cond))
 		if c.typ != "bool" {
 			x.fail(t.Cond, "if condition of type %s", c.typ)
